@@ -801,14 +801,31 @@ def check_C14(args):
                 yield scenario_from_hist("C14-g-%s" % g, C14_TABLES, gmenu, h), C14_TABLES
         # directed: a flush after every point, so that the 10th (re-encoding,
         # truncating) flush runs over rows with expired periods
-        for di in range(3 if quick else 20):
-            menu = aging_menu(rng, 13)
+        for di in range(4 if quick else 24):
+            # (long enough for two truncation cycles; table b filters points, so flush requests
+            # that find its memstore empty - offset-file writes - fall on every slot of the cycle)
+            menu = aging_menu(rng, 13 if di % 2 else 24, span=14 if di % 2 else 26)
             d = Directed(C14_TABLES, menu)
             for i in range(len(menu)):
                 d.insert_and_process()
                 for t in C14_TABLES:
                     d.flush(t.name)
             yield scenario_from_hist("C14-d%d" % di, C14_TABLES, menu, d.h, subsets=rng), C14_TABLES
+        # the truncation cycle with idle flush requests on every slot: table b filters the
+        # points of key 1, a flush after such a point finds its memstore empty (offset-file
+        # write); nine data-carrying flushes, the idle request on slot `at', ten more
+        for at in ([9] if quick else [9, 8, 10, 19, 0]):
+            menu = []
+            for i in range(20):
+                k = 1 if i == at else rng.choice([3, 4])
+                menu.append(point(i + 1, 1 + i // 2, k, vs=("w", "x")))
+            d = Directed(C14_TABLES, menu)
+            for i in range(len(menu)):
+                d.insert_and_process()
+                d.flush("b")
+                if i % 3 == 2:
+                    d.flush("a")
+            yield scenario_from_hist("C14-cycle%d" % at, C14_TABLES, menu, d.h, subsets=rng), C14_TABLES
         n_menus, per = (6, 16) if quick else (50, 80)
         for mi in range(n_menus):
             tabs = rng.choice([C14_TABLES, C14_TABLES2])
@@ -820,11 +837,39 @@ def check_C14(args):
             for j, h in enumerate(hs):
                 yield scenario_from_hist("C14-%d-%d" % (mi, j), tabs, menu, h, subsets=rng), tabs
 
+    st14 = {"runs_of_raw_flushes": 0, "longest": 0}
+
+    def post_judge(V, scenarios, traces):
+        # "... once a period has expired and a truncating flush has run (at most ten data-carrying
+        # flushes) ...": within one incarnation of the database, at most nine data-carrying
+        # flushes of a table in a row may take the raw pass-through; the tenth must re-encode
+        # (and thereby truncate) every row.  Read off the flush.begin events of the real code.
+        by_id = {s["scn"]: s for s in scenarios}
+        for scn, lines in traces.items():
+            run = {}
+            for l in lines:
+                a = l.get("a")
+                if a in ("Crash", "Close", "Open", "Start", "Reset"):
+                    run = {}
+                elif a == "FlushBegin":
+                    t = l["t"]
+                    run[t] = 0 if l.get("noRaw") else run.get(t, 0) + 1
+                    st14["longest"] = max(st14["longest"], run[t])
+                    if run[t] == 1:
+                        st14["runs_of_raw_flushes"] += 1
+                    if run[t] == 10:
+                        rp = common.save_replay("C14", scn + "-notrunc", {"scenario": by_id[scn], "kind": "truncating-flush-skipped", "line": l})
+                        V.violation(rp, "%s: table %s has made 10 data-carrying flushes in a row without a truncating one (flush.begin "
+                                        "events of one incarnation): expired periods of rows that get no new points stay on disk" % (scn, t))
+
+    def extra_cov(scenarios, traces):
+        return {"runs_of_raw_flushes_checked": st14["runs_of_raw_flushes"], "longest_run_of_raw_flushes": st14["longest"]}
+
     return store_check(args, "C14", mc_jobs, gen, RET_INVS, True,
                        ["virtual clock: now = newest accepted timestamp since the last open; it restarts at zero on open",
                         "a period ending at P is expired iff P <= now - retention",
                         "the harness maps WAL offsets to entries by entry content"],
-                       end_oracle=False, decision_lines=True)
+                       end_oracle=False, decision_lines=True, post_judge=post_judge, extra_cov=extra_cov)
 
 
 # ---------------------------------------------------------------- C15
@@ -1070,6 +1115,7 @@ class Directed:
         self.dirty = {t.name: False for t in tables}     # memstore has cells
         self.moved = {t.name: False for t in tables}     # offset changed since last write
         self.n = 0
+        self.clock = 0                                   # newest accepted timestamp (the virtual clock)
 
     def insert_and_process(self):
         self.n += 1
@@ -1077,7 +1123,11 @@ class Directed:
         self.h.append({"a": "Insert", "i": self.n})
         for t in self.tables:
             self.h.append({"a": "Decide", "t": t.name})
-            passes = WHERES[t.where][1](plain_dims(KEYS[p["k"]]))
+            # insert.go: older than the retention window -> ignored; then WHERE; then the clock advances
+            expired = p["ts"] < self.clock - t.ret
+            passes = WHERES[t.where][1](plain_dims(KEYS[p["k"]])) and not expired
+            if passes:
+                self.clock = max(self.clock, p["ts"])
             if passes and not p["vs"]:
                 continue                       # accepted, but nothing to apply
             self.h.append({"a": "Apply", "t": t.name})
